@@ -69,7 +69,8 @@ def toksToEvs : List String → List Nat → List Ev
       | some (n, _, _, v) => .open n (v == 1) :: toksToEvs rest ((if v == 1 then 0 else n + 1) :: open_)
       | none => toksToEvs rest open_
 
-def preNames : Names := ⟨fun n => n == 6, fun n => n == 7⟩     -- harness codes: 6 = pre, 7 = rt
+/-- harness codes: 6 = pre, 9 = textarea; 7 = rt, 10 = rp, 11 = template -/
+def preNames : Names := { isPre := fun n => n == 6 || n == 9, isSc := fun n => n == 7 || n == 10 || n == 11 }
 
 def q0 : Query := ⟨none, false, false, none, false⟩
 
@@ -81,7 +82,7 @@ def opDepth (cfg : Cfg) (op : String) (linked : Bool) (root : Loc) (l : Loc) (mi
   let allNodes := (descs root.anc root.node).map (·.node)
   let big := 1000000000
   match op with
-  | "parse" | "parse_bytes" | "parse_strainer" => some (parseDepth preNames big evs)
+  | "parse" | "parse_bytes" | "parse_strainer" | "parse_invariant" => some (parseDepth preNames big evs)
   | "decode" | "decode_html" | "decode_fn" | "decode_mid" | "decode_inner" => some (decodeDepth cfg l)
   | "encode" | "encode_inner" => some (encodeDepth cfg l)
   | "prettify" | "prettify_enc" => some (prettifyDepth cfg l)
@@ -132,7 +133,29 @@ def opDepth (cfg : Cfg) (op : String) (linked : Bool) (root : Loc) (l : Loc) (mi
   | "append_inner" | "append_top" | "move_subtree" => some (appendDepth l fresh false)
   | "insert0_top" | "insert0_root" => some (insertDepth l [fresh, s] false)
   | "extend_mid" => some (extendDepth l [s, fresh, s])
-  | "index" => some (indexDepth (kidsOf l.node))
+  | "index" | "tw_index" | "tw_index_last" => some (indexDepth (kidsOf l.node))
+  -- an argument that is a near copy of the receiver is, for the accounting, just another element: identity tests only
+  | "nc_replace_with" | "nc_replace_with_exact" | "nc_replace_with_top" | "nc_replace_with_parentcopy"
+  | "tw_replace_with" | "tw_replace_with_sibling" => some (replaceWithDepth parent l [l])
+  | "nc_replace_with_two" => some (replaceWithDepth parent l [l, l])
+  | "nc_insert_before" | "nc_insert_before_exact" | "nc_insert_after" | "tw_insert_before" | "tw_insert_after" =>
+    some (insertBesideDepth parent l [l, l])
+  | "nc_append_to_parent" | "nc_append_into_self" | "nc_append_child_of_copy" | "tw_move_first_to_end" => some (appendDepth l l false)
+  | "nc_insert0_parent" | "nc_insert_two" | "tw_insert_existing" => some (insertDepth parent [l, l] false)
+  | "nc_extend" => some (extendDepth parent [l, l])
+  | "nc_wrap_in_copy" | "tw_wrap" => some (wrapDepth parent l l)
+  | "nc_extract_before_parentcopy" | "tw_extract" | "tw_extract_last" => some (extractDepth l)
+  | "tw_unwrap" => some (unwrapDepth parent l)
+  | "tw_decompose" => some (decomposeDepth l)
+  | "tw_clear" => some (clearDepth l false)
+  | "tw_string_setter" => some (stringSetDepth l)
+  | "tw_smooth" => some (smoothDepth cfg l)
+  | "tw_decode" => some (decodeDepth cfg l)
+  | "tw_decode_parent" => some (prettifyDepth cfg l)
+  | "tw_get_text" => some (getTextDepth l)
+  | "tw_find_all" => some (findAllDepth cfg { q0 with name := some midName } l)
+  | "tw_find_next_siblings" => some (findAxisDepth cfg { q0 with name := some midName } allNodes)
+  | "tw_copy_parent" => some (copyDepth cfg false l)
   | "smooth" | "doc_smooth" => some (max (appendDepth l s false) (smoothDepth cfg l))
   | "string_setter_mid" | "string_setter_inner" => some (stringSetDepth l)
   | "len_bool_iter" | "contains_str" | "contains_child" => some (call (loop0 (kidsOf l.node)))
